@@ -22,7 +22,7 @@ LEVEL = dict(
 def offsets_rule(ctx, F, R="R-ORDER"):
     b = F.fn("Writer::write_indirect_object")
     reads = [(bi, ln) for bi, kind, ln, s in lib.field_accesses(b, "CountingWrite", "bytes_written") if kind in ("read", "move")]
-    writes = [c for c in b.calls if re.search(r"io::Write::(write_fmt|write_all|write)$", c.fn or "") or (c.local and re.search(r"Writer::write_", c.name))]
+    writes = [c for c in b.calls if re.search(r"io::Write::(write_fmt|write_all|write)$", c.fn or "") or (c.local and re.search(r"Writer::write_", c.cname))]
     ok = len(reads) == 1 and bool(writes) and all(b.dominates(reads[0][0], w.bb) and reads[0][0] != w.bb or (reads[0][0] == 0 and w.bb != 0) for w in writes)
     ctx.ob(R, "offset-before-writes|write_indirect_object", ok, "bytes_written is read once, before any of the %d write calls" % len(writes), b.where(),
            what="write_indirect_object reads the byte counter after something of the object was already written: the recorded offset does not point at `n g obj`")
@@ -49,7 +49,7 @@ def stream_rule(ctx, F, R="R-ORDER"):
     b = F.fn("Writer::write_stream")
     seq = []
     for c in b.calls:
-        if c.local and c.name.endswith("write_dictionary"):
+        if c.local and c.cname.endswith("write_dictionary"):
             seq.append(("dict", c))
         elif re.search(r"io::Write::write_all$", c.fn or ""):
             k = lib._const_bytes_through(b, c.args[1])
@@ -84,7 +84,7 @@ def stream_rule(ctx, F, R="R-ORDER"):
     tags = [lib._const_bytes_through(p, c.args[0]) for c in lib.calls_named(p, r"complete::tag$")]
     ctx.ob("R-TABLE", "stream-keywords|parser::stream", b"stream" in tags and b"endstream" in tags, "keywords stream/endstream", p.where(), what="parser::stream lost a keyword")
     # Stream::new / set_content keep Length == content.len()  (C09 rule 1 decides the setters; here: the reader builds through Stream::new)
-    news = [c for c in p.calls if c.local and re.search(r"Stream::new$", c.name)]
+    news = [c for c in p.calls if c.local and re.search(r"Stream::new$", c.cname)]
     ctx.ob(R, "stream-built-by-new|parser::stream", len(news) == 1, "the parsed stream is built by Stream::new(dict, data)", p.where(), what="parser::stream no longer builds the stream through Stream::new")
 
 
